@@ -25,6 +25,8 @@ pub struct Ipv6Packet {
     header: RefCell<Ipv6Header>,
     pub rawdata: RefCell<Rc<Vec<u8>>>,
     pub offset: usize,
+    // the selector as captured: it decides which layer follows, whatever the field is set to later
+    announced: NextHeader,
     pub inner: RefCell<Option<Rc<Object>>>,
 }
 
@@ -100,6 +102,7 @@ impl Ipv6Packet {
         let destination = Ipv6Address::from_bytes(&rawdata[off + 24..off + 40]);
         let offset = off + IPV6_HEADER_SIZE;
 
+        let announced = next_header.clone();
         let header = Ipv6Header {
             version: version_traffic_class,
             traffic_class,
@@ -115,6 +118,7 @@ impl Ipv6Packet {
             header: RefCell::new(header),
             rawdata: RefCell::new(rawdata),
             offset,
+            announced,
             inner: RefCell::new(None),
         })
     }
@@ -136,7 +140,7 @@ impl Ipv6Packet {
     }
 
     pub fn get_next_header_raw(&self) -> NextHeader {
-        self.header.borrow().next_header.clone()
+        self.announced.clone()
     }
 
     pub fn get_next_header(&self) -> Rc<Object> {
